@@ -11,6 +11,7 @@ import (
 	"net"
 	"net/http"
 	"net/url"
+	"os"
 	"sort"
 	"strconv"
 	"strings"
@@ -326,6 +327,12 @@ func Do(addr string, r Req) Resp {
 		target += "?" + r.Query
 	}
 	fmt.Fprintf(&b, "%s %s HTTP/1.1\r\nHost: %s\r\n", r.Method, target, addr)
+	if tf := os.Getenv("VERIF_TRACE_REQ"); tf != "" { // development aid: append every request to that file
+		if f, err := os.OpenFile(tf, os.O_APPEND|os.O_CREATE|os.O_WRONLY, 0o644); err == nil {
+			fmt.Fprintf(f, "REQ %s %s %v body=%d\n", r.Method, target, r.Headers, len(r.Body))
+			f.Close()
+		}
+	}
 	for _, h := range r.Headers {
 		fmt.Fprintf(&b, "%s: %s\r\n", h.K, h.V)
 	}
